@@ -18,6 +18,17 @@ CLAIMED = {
         "the BNF; numbers with more than 9 digits are not judged (TLC 32-bit integers).",
         "DESIGN.md section 4 C10",
     ),
+    "C09": (
+        "TLA+ path semantics (PathSem.tla Denote) evaluated by TLC on recorded rewrite results",
+        "Every command sequence up to the tier's length bound over the 20 path commands x 3 argument "
+        "schemes x M|m (plus seeded longer ones) is pushed through every rewrite of the real SVGPath "
+        "class; TLC computes the SVG 1.1 denotation (subpaths, start, closedness, absolute segments, "
+        "same-family reflection) of input and output and the promised target form; basic shapes are "
+        "compared with the SVG 1.1 chapter 9 outlines; rounding with the half-unit bound.",
+        "Trusted: driver scaling of numbers to integers; arc-to-cubic control points are judged by "
+        "C12 (here only structure and exact end points).",
+        "DESIGN.md section 4 C09",
+    ),
 }
 
 PENDING_REASON = "check not built yet in this session (work in progress; see DESIGN.md section 8)"
